@@ -68,6 +68,25 @@ PROPS = {
         "assumptions": ["NaiveDate::from_ymd_opt / NaiveTime::from_hms_opt accept exactly Gregorian dates / 24h clock times (validated exhaustively for 1950-2049)",
                         "chrono's %y%m%d and %H%M print two zero-padded digits per component"],
     },
+    "C06": {
+        "streams": ["c06"],
+        "driver": True,
+        "extractors": ["T5"],
+        "instances": lambda gen: len(gen.get("tables", {}).get("currency", {}).get("rows", [])) + 1,
+        "rule": "22 amount/rate field shapes (19, 32A/B/C/D, 33B, 34F with and without D/C mark, 36, 37H with and without N, 60F/M, 61, 62F/M, 64, "
+                "65, 71F/G, 90C/D) x currencies (quick: a fixed set covering every precision 0/2/3/4, commodity and unknown codes, plus random "
+                "ISO codes; thorough: all ISO-4217 codes) x decimals 0..5 x magnitudes 0..17 digits, plus 39 non-decimal spellings (NaN, inf, "
+                "exponents, signs, separators, blanks, non-ASCII). Checks: accepted => plain decimal within length limit and currency precision; "
+                "permitted decimal => accepted; MT serialisation and JSON number denote the same decimal; re-parse stable. The currency-aware "
+                "and the plain amount primitives are compared with the compiled Lean model in the exact-decimal region. Non-trivial = plain "
+                "decimal or accepted; distinct = (field shape, currency, amount text)",
+        "modelled": "parse_amount, parse_amount_max_len, parse_amount_with_currency, get_currency_decimals (table regenerated, T5), "
+                    "format_swift_amount(_for_currency) on exact decimals; the f64 in between is NOT modelled",
+        "trusted_base": [KERNEL, TRANSLATOR, HARNESS, "hand model SwiftMT/Amount.lean (differentially compared through fields 32B and 19)",
+                         "Spec/Iso4217.lean: ISO 4217 minor units written by hand"],
+        "assumptions": ["decimal -> f64 -> decimal ({:.N} printing) is the identity when integer digits + printed decimals <= 15; outside that region only the oracle speaks (finding class f64-precision)",
+                        "str::parse::<f64> on a plain decimal returns the correctly rounded value"],
+    },
     "C09": {
         "streams": ["c09"],
         "driver": False,
